@@ -133,4 +133,44 @@ MUTANTS = [
     dict(p="C05", id="source-compression-label-wrong", file="versatiles/src/tools/server/sources/tile_source.rs",
          old="Ok(SourceResponse::new_some(tile, &self.compression, &self.tile_mime))", new="Ok(SourceResponse::new_some(tile, &TileCompression::Uncompressed, &self.tile_mime))",
          why="stored compression not reported: compressed bytes are sent as identity"),
+    # ---------------------------------------------------------------- C06
+    dict(p="C06", id="cli-min-zoom-sets-max", file="versatiles/src/tools/convert.rs",
+         old="		bbox_pyramid.set_zoom_min(min_zoom)", new="		bbox_pyramid.set_zoom_max(min_zoom)",
+         why="--min-zoom wired to the upper limit"),
+    dict(p="C06", id="cli-border-before-bbox", file="versatiles/src/tools/convert.rs",
+         old="			bbox_pyramid.add_border(b, b, b, b);", new="			bbox_pyramid.add_border(b, b, 0, 0);",
+         why="border only added on the min side"),
+    dict(p="C06", id="cli-border-without-bbox-dropped", file="versatiles/src/tools/convert.rs",
+         old="		bbox_pyramid.intersect_geo_bbox(&GeoBBox::try_from(values)?)?;\n", new="		let _ = GeoBBox::try_from(values)?;\n",
+         why="--bbox parsed but never applied"),
+    dict(p="C06", id="stream-out-map-only-when-both", file="versatiles_container/src/container/converter.rs",
+         old="		if flip_y || swap_xy {\n			stream = stream.map_coord", new="		if flip_y && swap_xy {\n			stream = stream.map_coord",
+         why="with a single flag streamed coordinates are not mapped back"),
+    dict(p="C06", id="coverage-intersect-before-transform", file="versatiles_container/src/container/converter.rs",
+         old="""		if cp.flip_y {
+			new_rp.bbox_pyramid.flip_y();
+		}
+		if cp.swap_xy {
+			new_rp.bbox_pyramid.swap_xy();
+		}
+
+		if let Some(bbox_pyramid) = &cp.bbox_pyramid {
+			new_rp.bbox_pyramid.intersect(bbox_pyramid);
+		}
+""",
+         new="""		if let Some(bbox_pyramid) = &cp.bbox_pyramid {
+			new_rp.bbox_pyramid.intersect(bbox_pyramid);
+		}
+
+		if cp.flip_y {
+			new_rp.bbox_pyramid.flip_y();
+		}
+		if cp.swap_xy {
+			new_rp.bbox_pyramid.swap_xy();
+		}
+""",
+         why="requested selection applied in source coordinates instead of output coordinates"),
+    dict(p="C06", id="stream-no-recompress", file="versatiles_container/src/container/converter.rs",
+         old="			stream = tile_recompressor.process_stream(stream);", new="			let _ = tile_recompressor;",
+         why="(C04) stream path skips recompression", checks=["C04"]),
 ]
